@@ -5,6 +5,7 @@ pub mod c04;
 pub mod c05;
 pub mod c06;
 pub mod c07;
+pub mod c10;
 pub mod c11;
 pub mod c12;
 pub mod c13;
@@ -25,6 +26,7 @@ pub fn instances(prop: &str, tier: &str, seed: u64) -> Vec<String> {
         "C05" => c05::instances(tier),
         "C06" => c06::instances(tier, seed),
         "C07" => c07::instances(tier, seed),
+        "C10" => c10::instances(tier),
         "C11" => c11::instances(tier),
         "C12" => c12::instances(tier),
         "C13" => c13::instances(tier),
@@ -40,6 +42,7 @@ pub fn instances(prop: &str, tier: &str, seed: u64) -> Vec<String> {
 pub fn configure(prop: &str, inst: &str, cfg: &mut Config) {
     match prop {
         "C13" => c13::configure(inst, cfg),
+        "C10" => c10::configure(inst, cfg),
         _ => {}
     }
 }
@@ -60,6 +63,7 @@ fn body_inner(prop: &str, inst: &str) {
         "C05" => c05::body(inst),
         "C06" => c06::body(inst),
         "C07" => c07::body(inst),
+        "C10" => c10::body(inst),
         "C11" => c11::body(inst),
         "C12" => c12::body(inst),
         "C13" => c13::body(inst),
